@@ -132,14 +132,14 @@ PROPS = {
                       '(3) in the real bodies of eval_terminal/transfer/relation/program/uri_template/content/object/variadic_operation/unary_operation/property/array every cast precondition follows '
                       'from those kind facts, the runtime guards of the code, and the assumed preservation relation at eval_any. '
                       'Preservation (inference soundness), termination of evaluation, eval_application/eval_declaration/eval_variable/eval_binding/eval_recursion/eval_literal, and the emitter panics are not decided: level other.',
-        'level_note': 'ASSUMED: preservation `inhabits(value, tag)` at eval_any (stated once, deliberately permissive); every evaluated node belongs to a module accepted by type_check; the equations of `constrain` hold on final tags (unify/substitute sound); '
+        'level_note': 'ASSUMED: preservation `inhabits(value, tag)` at eval_any (stated once, deliberately permissive); every evaluated node belongs to a module accepted by type_check; '
                       'no unresolved type variable at a cast-relevant position (violated by generic functions imported across modules: known finding C01.site.var); the reference table holds schemas only. '
                       'Trusted shims: oal_syntax::parser node accessors as an opaque tree with ghost structure, Annotation getters, EnumMap/IndexMap/Ranges operations, Rc/String helpers (R-local rewrites, logged).',
         'design_ref': 'DESIGN.md section 5, C01',
         'explanation': 'Type soundness = preservation + progress. This check decides progress at the evaluator\'s cast sites on the real code, relative to an explicit preservation assumption. '
                        'On the pinned tree four site obligations failed (headers, transfer domain, resource relation, relation uri; plus concat by the same pattern), each confirmed with the real CLI and repaired by fix commit 070d7db. '
                        'The unresolved-variable family (imported generic function) remains as known finding C01.site.var.',
-        'assumptions': ['preservation at eval_any (inhabits)', 'compiled(): every evaluated node was type-checked (glue not verified)', 'solved(): unification is sound', 'resolved(): no residual type variable (known finding when violated)', 'refs_are_schemas (evaluator invariant)'],
+        'assumptions': ['preservation at eval_any (inhabits)', 'compiled(): every evaluated node was type-checked (glue not verified)', 'resolved(): no residual type variable (known finding when violated)', 'refs_are_schemas (evaluator invariant)'],
         'not_decided': ['preservation (that the inferred tag describes the evaluated value)', 'termination of evaluation / stack depth', 'eval_application, eval_declaration, eval_variable, eval_binding, eval_recursion, eval_literal, eval_any dispatcher panics', 'emitter unreachable!/expect sites (oal-openapi)', 'loader/ModuleSet unwraps'],
     },
     'C03': {
